@@ -222,6 +222,26 @@ pub fn add_noise(rg: &mut Rg, e: &mut EnumSpec) {
         let slot = rg.below(6) as u8;
         e.noise.push((slot, t.to_string()));
     }
+    // a local item shadowing a prelude name: generated code must not depend on what `Default` means here
+    if rg.chance(1, 5) {
+        e.decoys.push("#[allow(dead_code)] pub trait Default { fn default() -> Self; }".to_string());
+    }
+}
+
+/// `macro_rules!` expression fragments usable in discriminant expressions: (argument text, value).
+/// All are binary expressions of low precedence, so `$a * k` differs from the flattened token sequence.
+pub const FRAGMENTS: &[(&str, i128)] = &[("1 + 2", 3), ("6 - 2", 4), ("1 | 4", 5), ("2 + 0", 2), ("9 - 3", 6)];
+
+/// a discriminant written with the fragment `$a` (value `a`): (text, value)
+pub fn fragment_disc(rg: &mut Rg, a: i128, signed: bool) -> (String, i128) {
+    let k = rg.range(2, 6) as i128;
+    match rg.below(if signed { 5 } else { 4 }) {
+        0 => (format!("$a * {}", k), a * k),
+        1 => (format!("{} * $a", k), a * k),
+        2 => ("$a".to_string(), a),
+        3 => (format!("{} - $a % 2", 20 + k), 20 + k - a % 2),
+        _ => ("-$a".to_string(), -a),
+    }
 }
 
 /// identifiers that differ only in case / word boundaries (distinct Rust identifiers that careless
@@ -434,6 +454,9 @@ fn placeholder_lit(rg: &mut Rg, kind: Kind, fields: &[FieldSpec]) -> String {
         let x = order[0];
         order.push(x);
     }
+    // regularly nothing but placeholders (a literal that is exactly `{0:>6}` is a shape of its own)
+    let bare = rg.chance(1, 5);
+    let texts: &[&str] = if bare { &[""] } else { &texts[..] };
     let mut s = String::new();
     s.push_str(*rg.pick(&texts[..]));
     for &i in &order {
@@ -513,6 +536,14 @@ pub fn gen_string(rg: &mut Rg, cfg: &GenCfg) -> EnumSpec {
     let mut idents: Vec<&str> = IDENTS.to_vec();
     rg.shuffle(&mut idents);
     with_ident_pair(rg, &mut idents);
+    // regularly an identifier that starts with / contains non-ASCII letters among the first variants
+    if rg.chance(1, 4) {
+        if let Some(p) = idents.iter().position(|s| !s.is_ascii()) {
+            let x = idents.remove(p);
+            let at = rg.below(3).min(idents.len());
+            idents.insert(at, x);
+        }
+    }
     if !cfg.idents.is_empty() {
         let mut first: Vec<&str> = cfg.idents.iter().map(|s| s.as_str()).collect();
         first.extend(idents.iter().copied().filter(|i| !cfg.idents.iter().any(|c| c == i)));
@@ -623,6 +654,15 @@ pub fn gen_string(rg: &mut Rg, cfg: &GenCfg) -> EnumSpec {
                         lits[i].push(c);
                     }
                 }
+                // the longest literal in bytes is not the longest in characters
+                if lits.len() >= 2 && !cfg.plain_literals && rg.chance(1, 6) {
+                    const CJK: [char; 8] = ['日', '本', '語', '漢', '字', '東', '京', '中'];
+                    let prev_len = lits[lits.len() - 2].len();
+                    let m = prev_len / 3 + 1;
+                    let l: String = (0..m).map(|j| CJK[(vi + j) % CJK.len()]).collect();
+                    let last = lits.len() - 1;
+                    lits[last] = l;
+                }
                 // a case-variant sibling of the variant's own spelling (legal while the variant is case-sensitive;
                 // the repair step re-spells it otherwise)
                 if rg.chance(1, 6) && !cfg.plain_literals {
@@ -639,6 +679,10 @@ pub fn gen_string(rg: &mut Rg, cfg: &GenCfg) -> EnumSpec {
                     if sib != base && sib.chars().count() == base.chars().count() && !lits.contains(&sib) {
                         lits.push(sib);
                     }
+                }
+                // an explicit name that happens to be the identifier itself is still explicit: never re-cased
+                if lits.len() == 1 && !cfg.plain_literals && rg.chance(1, 10) {
+                    lits[0] = v.ident.trim_start_matches("r#").to_string();
                 }
                 rg.shuffle(&mut lits);
                 for l in lits {
@@ -914,6 +958,18 @@ pub fn gen_repr(rg: &mut Rg, repr: Option<&str>, derives: &[String]) -> EnumSpec
             let b = if signed { rg.range(0, 40) as i128 - 20 } else { rg.range(0, 40) as i128 };
             e.base_const = Some(b);
         }
+        // the integer type may sit in a second #[repr] attribute, after an alignment (or, with fields, `C`) hint
+        if let Some(r) = repr {
+            if rg.chance(1, 8) {
+                let first = if data && rg.chance(1, 2) { "C" } else { *rg.pick(&["align(8)", "align(2)"]) };
+                e.repr = Some(format!("{}; {}", first, r));
+            }
+        }
+        // the whole item comes out of a macro_rules! macro and discriminants mention its expression fragment
+        let frag = if explicit_ok && rg.chance(1, 5) { Some(*rg.pick(FRAGMENTS)) } else { None };
+        if let Some((text, _)) = frag {
+            e.macro_args.push(("a".to_string(), "expr".to_string(), text.to_string()));
+        }
         let mut idents: Vec<&str> = IDENTS.to_vec();
         rg.shuffle(&mut idents);
         with_ident_pair(rg, &mut idents);
@@ -949,6 +1005,13 @@ pub fn gen_repr(rg: &mut Rg, repr: Option<&str>, derives: &[String]) -> EnumSpec
                 };
                 v.disc = Some(Disc { text, value: val });
             }
+            if let Some((_, a)) = frag {
+                if rg.chance(1, 2) {
+                    let (text, value) = fragment_disc(rg, a, signed);
+                    val = value;
+                    v.disc = Some(Disc { text, value });
+                }
+            }
             prev = Some(val);
             if rg.chance(1, 4) {
                 v.groups = disabled_attrs(rg, vi);
@@ -972,6 +1035,10 @@ pub fn gen_repr(rg: &mut Rg, repr: Option<&str>, derives: &[String]) -> EnumSpec
         s.sort();
         s.dedup();
         if s.len() != ds.len() || ds.iter().any(|d| *d < lo || *d > hi) {
+            continue;
+        }
+        // `C` next to an integer type is only legal on an enum with fields
+        if e.repr.as_deref().map_or(false, |r| r.starts_with("C;")) && e.variants.iter().all(|v| v.fields.is_empty()) {
             continue;
         }
         // BASE must be used if declared (otherwise harmless); fine either way
@@ -1041,6 +1108,45 @@ pub fn gen_shape(rg: &mut Rg) -> EnumSpec {
             v.groups = disabled_attrs(rg, tag);
         }
         e.variants.push(v);
+    }
+    // a DISABLED variant may share its method name with an enabled one (it gets no methods)
+    if rg.chance(1, 5) {
+        let pairs: Vec<(&str, &str)> = IDENT_PAIRS
+            .iter()
+            .copied()
+            .filter(|(a, b)| method_safe(a) && method_safe(b) && model::snake_method(a) == model::snake_method(b) && !used_methods.contains(&model::snake_method(a)))
+            .filter(|(a, b)| !e.variants.iter().any(|v| v.ident == *a || v.ident == *b))
+            .collect();
+        if !pairs.is_empty() {
+            let (a, b) = *rg.pick(&pairs);
+            let (dis_id, en_id) = if rg.chance(1, 2) { (a, b) } else { (b, a) };
+            let mut d = VariantSpec::unit(dis_id);
+            d.groups = disabled_attrs(rg, 90);
+            let mut en = VariantSpec::unit(en_id);
+            if rg.chance(2, 3) {
+                en.kind = Kind::Tuple;
+                let nf = rg.range(1, 2);
+                en.fields = gen_fields(rg, Kind::Tuple, nf, &pool_a, &e);
+            }
+            used_methods.push(model::snake_method(a));
+            let at = rg.range(0, e.variants.len());
+            if rg.chance(1, 2) {
+                e.variants.insert(at, en);
+                e.variants.insert(at, d);
+            } else {
+                e.variants.insert(at, d);
+                e.variants.insert(at, en);
+            }
+        }
+    }
+    // a tuple variant wider than the alphabet
+    if rg.chance(1, 8) {
+        let nf = rg.range(27, 30);
+        let mut v = VariantSpec::unit("WideTuple");
+        v.kind = Kind::Tuple;
+        v.fields = (0..nf).map(|i| FieldSpec { name: None, ty: if i % 7 == 3 { FieldTy::Str } else { FieldTy::U8 }, default_with: false }).collect();
+        let at = rg.range(0, e.variants.len());
+        e.variants.insert(at, v);
     }
     add_noise(rg, &mut e);
     irrelevant_enum_attrs(rg, &mut e, false, true);
@@ -1156,6 +1262,19 @@ pub fn gen_meta(rg: &mut Rg, cfg: &GenCfg, props: bool) -> EnumSpec {
         }
         scatter(rg, &mut e.variants[vi], items);
     }
+    // two variants whose property lists read the same once keys and values are run together
+    // (`ch = 12` / `ch1 = 2`): they are different declarations
+    if props && e.variants.len() >= 2 && rg.chance(1, 5) {
+        let a = rg.below(e.variants.len() - 1);
+        let b = rg.range(a + 1, e.variants.len() - 1);
+        let (pa, pb): (Vec<(String, PropVal)>, Vec<(String, PropVal)>) = if rg.chance(1, 2) {
+            (vec![("ch".into(), PropVal::Int(12, false))], vec![("ch1".into(), PropVal::Int(2, false))])
+        } else {
+            (vec![("armed".into(), PropVal::Bool(true)), ("muted".into(), PropVal::Bool(false))], vec![("armedtruemuted".into(), PropVal::Bool(false))])
+        };
+        e.variants[a].groups.push(vec![VAttr::Props(pa)]);
+        e.variants[b].groups.push(vec![VAttr::Props(pb)]);
+    }
     e
 }
 
@@ -1211,9 +1330,35 @@ pub fn gen_table(rg: &mut Rg, n_enabled: usize) -> EnumSpec {
             v.disc = Some(Disc { text: format!("{}", x), value: x });
         }
     }
+    // a #[repr] on the key enum must not change which slot a key owns
+    if rg.chance(1, 3) {
+        let max = e.variants.iter().filter_map(|v| v.disc.as_ref().map(|d| d.value)).max().unwrap_or(e.variants.len() as i128);
+        let r = if max < 250 { *rg.pick(&["u8", "u8", "i32", "u64"]) } else { *rg.pick(&["u16", "i32"]) };
+        e.repr = Some(r.to_string());
+        e.repr_int = Some(r.to_string());
+    }
     add_noise(rg, &mut e);
     irrelevant_enum_attrs(rg, &mut e, false, true);
     variant_noise(rg, &mut e, true);
+    e
+}
+
+/// A table enum with more keys than fit a byte (C10)
+pub fn gen_table_large(rg: &mut Rg, n: usize) -> EnumSpec {
+    let mut e = EnumSpec::new("En");
+    e.derives = vec!["EnumTable".into()];
+    let dis: Vec<usize> = (0..3).map(|_| rg.below(n)).collect();
+    for i in 0..n {
+        let mut v = VariantSpec::unit(&format!("K{}", i));
+        if dis.contains(&i) {
+            v.groups = disabled_attrs(rg, i);
+        }
+        e.variants.push(v);
+    }
+    if rg.chance(1, 2) {
+        e.repr = Some("u16".to_string());
+        e.repr_int = Some("u16".to_string());
+    }
     e
 }
 
@@ -1225,16 +1370,23 @@ pub fn gen_disc(rg: &mut Rg) -> EnumSpec {
         e.type_param = rg.chance(1, 4);
         e.lifetime = rg.chance(1, 5);
         e.where_clause = e.type_param && rg.chance(1, 2);
-        let repr = *rg.pick(&[None, None, Some("u8"), Some("i32"), Some("u16"), Some("i8"), Some("align(4), u8"), Some("u64")]);
+        e.generic_defaults = e.type_param && rg.chance(1, 3);
+        let repr = *rg.pick(&[None, None, Some("u8"), Some("i32"), Some("u16"), Some("i8"), Some("align(4), u8"), Some("u64"), Some("C"), Some("C, u8"), Some("i16, C")]);
         e.repr = repr.map(|s| s.to_string());
-        e.repr_int = repr.map(|s| s.split(',').last().unwrap().trim().to_string());
+        e.repr_int = repr.and_then(|s| s.split(',').map(|t| t.trim()).find(|t| t.starts_with('u') || t.starts_with('i'))).map(|t| t.to_string());
         let (lo, hi) = match e.repr_int.as_deref() {
             Some(r) => model::repr_range(Some(r)),
             None => (i32::MIN as i128, i32::MAX as i128),
         };
-        let data = rg.chance(2, 3);
-        let explicit_ok = !(data && repr.is_none());
+        // `C` together with an integer is only legal on an enum with fields
+        let c_and_int = e.repr_int.is_some() && repr.map_or(false, |r| r.split(',').any(|t| t.trim() == "C"));
+        let data = c_and_int || rg.chance(2, 3);
+        let explicit_ok = !(data && e.repr_int.is_none());
         let n = rg.range(1, 7);
+        let frag = if explicit_ok && rg.chance(1, 5) { Some(*rg.pick(FRAGMENTS)) } else { None };
+        if let Some((text, _)) = frag {
+            e.macro_args.push(("a".to_string(), "expr".to_string(), text.to_string()));
+        }
         let mut idents: Vec<&str> = IDENTS.iter().copied().filter(|s| s.is_ascii()).collect();
         rg.shuffle(&mut idents);
         let mut stems: Vec<&str> = STEMS.iter().copied().filter(|s| s.chars().all(|c| c.is_ascii_alphanumeric() || c == '-' || c == '_')).collect();
@@ -1276,6 +1428,11 @@ pub fn gen_disc(rg: &mut Rg) -> EnumSpec {
         if rg.chance(1, 4) {
             opts.docs.push("The kind of thing.".into());
         }
+        // derive(Default) on D needs its `#[default]` variant, requested through a variant-level pass-through
+        let want_default = if rg.chance(1, 4) { Some(rg.below(n)) } else { None };
+        if want_default.is_some() {
+            opts.derives.push("Default".to_string());
+        }
         let mut prev: Option<i128> = None;
         for vi in 0..n {
             let mut v = VariantSpec::unit(idents[vi]);
@@ -1300,7 +1457,18 @@ pub fn gen_disc(rg: &mut Rg) -> EnumSpec {
                 };
                 v.disc = Some(Disc { text, value: val });
             }
+            if let Some((_, a)) = frag {
+                if rg.chance(1, 2) {
+                    let (text, value) = fragment_disc(rg, a, lo < 0);
+                    val = value;
+                    v.disc = Some(Disc { text, value });
+                }
+            }
             prev = Some(val);
+            if want_default == Some(vi) {
+                // a bare word is a legal pass-through too: `#[strum_discriminants(default)]` becomes `#[default]`
+                v.disc_passthrough.push("default".to_string());
+            }
             // E-only strum attributes must not reach D
             let mut attrs = Vec::new();
             if rg.chance(1, 4) {
@@ -1338,10 +1506,13 @@ pub fn gen_disc(rg: &mut Rg) -> EnumSpec {
             let mut v = VariantSpec::unit("GenericsCarrier");
             v.kind = Kind::Tuple;
             v.fields = need.into_iter().map(|ty| FieldSpec { name: None, ty, default_with: false }).collect();
-            if repr.is_none() && e.variants.iter().any(|x| x.disc.is_some()) {
+            if e.repr_int.is_none() && e.variants.iter().any(|x| x.disc.is_some()) {
                 continue;
             }
             e.variants.push(v);
+        }
+        if c_and_int && e.variants.iter().all(|v| v.fields.is_empty()) {
+            continue; // rustc: conflicting representation hints on a field-less enum
         }
         e.disc_opts = Some(opts);
         // the source enum's own visibility varies as well (the glue sits in the parent module)
